@@ -11,6 +11,9 @@ CHECKS = {
  'C02': ('bounded-exhaustive enumeration + proptest generators against an independent pushdown recogniser of the event grammar',
          'Same input spaces as C01; pull and push event streams on two back-ends must be a prefix (or, without error, a whole sentence) of the YAML event grammar with the anchor/alias id rules.',
          'Grammar only; the recogniser (harness/src/oracle/grammar.rs) is trusted.', '5 C02'),
+ 'C03': ('model-based generation: abstract node trees rendered by an independent spec-derived renderer under generated layout choices; expected events are a function of the tree; plus the test-suite corpus with layout-preserving metamorphic variants',
+         '1.5*10^5 (quick) / 3*10^6 (thorough) rendered streams covering every construct and layout choice the property lists (class histogram in the evidence, each >= 1 %), compared event by event (kind, text, style, anchor link, tag, explicit start) on two back-ends; 308 non-error suite cases x 4 variants against their tree: expectation.',
+         'The renderer (harness/src/model.rs, written from the YAML 1.2.2 productions) is trusted to emit only well-formed streams; simple scalar mode here, tricky scalars are C04 / C05.', '5 C03'),
  'C07': ('model-based: independent reference loader (fold of the event list) compared with the four loaders over bounded-exhaustive and proptest inputs',
          'Every accepted input of the text spaces (and rendered documents) is folded from its push-interface events by a reference loader and compared document by document with Yaml, YamlOwned, MarkedYaml and MarkedYamlOwned loads; load fails iff the parser fails, same error.',
          'Scalars are resolved by the library resolver inside the reference fold (the resolver itself is C08); duplicated key position first-or-last (I3).', '5 C07'),
